@@ -37,6 +37,16 @@ func (checker *TimestampChecker) IsUpToDate(t *ast.Task) (bool, error) {
 		return false, nil
 	}
 
+	// A generates entry that matches nothing means the task has to run
+	for _, g := range t.Generates {
+		if g.Negate {
+			continue
+		}
+		if matches, err := glob(t.Dir, g.Glob); err != nil || len(matches) == 0 {
+			return false, nil
+		}
+	}
+
 	timestampFile := checker.timestampFilePath(t)
 
 	// If the file exists, add the file path to the generates.
